@@ -19,6 +19,40 @@ Check(p, cond, m) == IF cond THEN {} ELSE {Msg(p, m)}
 CheckK(p, cond, kf, m) == IF cond THEN {} ELSE {[p |-> p, m |-> m, kf |-> kf]}
 
 -----------------------------------------------------------------------------
+(* JSON projection -> abstract state *)
+AmtMap(sq) == [a \in {sq[i].a : i \in DOMAIN sq} |-> (CHOOSE i \in DOMAIN sq : sq[i].a = a) ]
+Amts(sq) == LET nz == {i \in DOMAIN sq : sq[i].x # "0"} IN [a \in {sq[i].a : i \in nz} |-> sq[CHOOSE i \in nz : sq[i].a = a].x]
+HistMap(sq) == [k \in {<<sq[i].al, sq[i].rd>> : i \in DOMAIN sq} |-> sq[CHOOSE i \in DOMAIN sq : <<sq[i].al, sq[i].rd>> = k].idx]
+ByKey(sq, key(_), val(_)) == [k \in {key(sq[i]) : i \in DOMAIN sq} |-> val(sq[CHOOSE i \in DOMAIN sq : key(sq[i]) = k])]
+
+NormState(j) ==
+  [ now |-> j.now, height |-> j.height,
+    params |-> [delay |-> j.params.delay, interval |-> j.params.interval, last |-> j.params.last],
+    assets |-> ByKey(j.assets, LAMBDA r : r.a,
+                     LAMBDA r : [weight |-> r.weight, wmin |-> r.wmin, wmax |-> r.wmax, take |-> r.take, total |-> r.total,
+                                 vshares |-> r.vshares, start |-> r.start, rate |-> r.rate, chgInt |-> r.chgInt,
+                                 lastChg |-> r.lastChg, init |-> r.init]),
+    vals |-> ByKey(j.vals, LAMBDA r : r.v, LAMBDA r : [vshares |-> Amts(r.vshares), dshares |-> Amts(r.dshares), hist |-> HistMap(r.hist)]),
+    dels |-> ByKey(j.dels, LAMBDA r : <<r.d, r.v, r.a>>, LAMBDA r : [shares |-> r.shares, hist |-> HistMap(r.hist), lastH |-> r.lastH]),
+    bals |-> ByKey(j.dels, LAMBDA r : <<r.d, r.v, r.a>>, LAMBDA r : r.bal),
+    unbQ |-> ByKey(j.unbQ, LAMBDA r : <<r.t, r.d>>, LAMBDA r : [i \in DOMAIN r.entries |-> [d |-> r.entries[i].d, v |-> r.entries[i].v, a |-> r.entries[i].a, bal |-> r.entries[i].bal]]),
+    unbIdx |-> {<<j.unbIdx[i].v, j.unbIdx[i].t, j.unbIdx[i].a, j.unbIdx[i].d>> : i \in DOMAIN j.unbIdx},
+    redRec |-> ByKey(j.redRec, LAMBDA r : <<r.d, r.a, r.dst, r.t>>, LAMBDA r : [d |-> r.rd, src |-> r.src, dst |-> r.rdst, a |-> r.ra, bal |-> r.bal]),
+    redIdx |-> {<<j.redIdx[i].src, j.redIdx[i].t, j.redIdx[i].a, j.redIdx[i].dst, j.redIdx[i].d>> : i \in DOMAIN j.redIdx},
+    redQ |-> ByKey(j.redQ, LAMBDA r : r.t, LAMBDA r : [i \in DOMAIN r.entries |-> [d |-> r.entries[i].d, src |-> r.entries[i].src, dst |-> r.entries[i].dst, a |-> r.entries[i].a, bal |-> r.entries[i].bal]]),
+    flag |-> j.flag,
+    snaps |-> ByKey(j.snaps, LAMBDA r : <<r.a, r.v, r.h>>, LAMBDA r : [prevW |-> r.prevW, hist |-> HistMap(r.hist)]),
+    bank |-> [custody |-> Amts(j.bank.custody), rewards |-> Amts(j.bank.rewards), fee |-> Amts(j.bank.fee),
+              users |-> ByKey(j.bank.users, LAMBDA r : r.d, LAMBDA r : Amts(r.coins)),
+              supplyBond |-> j.bank.supplyBond, donated |-> Amts(j.bank.donated)],
+    env |-> [unbonding |-> j.env.unbonding, totalBonded |-> j.env.totalBonded,
+             vals |-> ByKey(j.env.vals, LAMBDA r : r.v,
+                            LAMBDA r : [status |-> r.status, jailed |-> r.jailed, tokens |-> r.tokens, dshares |-> r.dshares,
+                                        modShares |-> r.modShares, hasMod |-> r.hasMod, pending |-> Amts(r.pending)])],
+    invBroken |-> j.invBroken ]
+
+
+-----------------------------------------------------------------------------
 (* rationals as <<num, den>> with den > 0, over BigNum *)
 Rat(n, d) == IF IsNeg(d) THEN <<BNeg(n), BNeg(d)>> ELSE <<n, d>>
 RInt(n) == <<n, "1">>
@@ -156,7 +190,7 @@ C02_State(s) ==
 \*          (C13 does not speak about those; C12 does)
 \* nacc:    position -> number of accruals since its last claim (index resolution allowance)
 GhostInit == [unb |-> <<>>, red |-> <<>>, stall |-> FALSE, dep |-> <<>>, slashed |-> FALSE, k2 |-> NoCoins, stuck |-> NoCoins,
-              ent |-> <<>>, taint |-> {}, nacc |-> <<>>, prevEnd |-> -1]
+              ent |-> <<>>, taint |-> {}, nacc |-> <<>>, prevEnd |-> -1, diverged |-> ""]
 LedgerOfState(s) ==
   LET xs == SortBy(UnbEntries(s), LAMBDA x : <<x[1][1], DelIdx(x[1][2]), x[2]>>)
   IN  [i \in DOMAIN xs |-> [d |-> s.unbQ[xs[i][1]][xs[i][2]].d, v |-> s.unbQ[xs[i][1]][xs[i][2]].v, a |-> s.unbQ[xs[i][1]][xs[i][2]].a,
@@ -180,6 +214,12 @@ BeforeDecay(pre, rec) ==
   ELSE LET r2 == CompleteUnbondings(CompleteRedelegations(pre))
            r4 == TakeRate(InitAssets(r2.s))
        IN  r4.s
+StoreView(s) == [params |-> s.params, assets |-> s.assets, vals |-> s.vals, dels |-> s.dels, unbQ |-> s.unbQ, unbIdx |-> s.unbIdx,
+                 redRec |-> s.redRec, redIdx |-> s.redIdx, redQ |-> s.redQ, flag |-> s.flag, snaps |-> s.snaps]
+\* the time queue is only used to find the records to delete at maturity: multiplicity and balances of its entries are unobservable
+QueueView(s) == [t \in DOMAIN s.redQ |-> {<<s.redQ[t][i].d, s.redQ[t][i].src, s.redQ[t][i].dst, s.redQ[t][i].a>> : i \in DOMAIN s.redQ[t]}]
+ObsView(s) == [StoreView(s) EXCEPT !.redQ = QueueView(s)]
+MergedAny(red) == \E i, j \in DOMAIN red : red[i].d = red[j].d /\ red[i].dst = red[j].dst /\ red[i].a = red[j].a /\ red[i].due = red[j].due /\ red[i].src # red[j].src
 \* ---- C13 entitlement ledger ----
 RatCoinsAdd(f, g) == [k \in DOMAIN f \cup DOMAIN g |-> RAdd(IF k \in DOMAIN f THEN f[k] ELSE RZero, IF k \in DOMAIN g THEN g[k] ELSE RZero)]
 \* positions that settle their rewards inside this event (the asset must have started, else the claim returns early)
@@ -279,7 +319,11 @@ GhostNext(gh, pre, rec, post) ==
                          ELSE IF post.params.last + I >= pre.now THEN FALSE ELSE gh.stall
   IN  [unb |-> unb2, red |-> red1, stall |-> stall2, dep |-> dep2, slashed |-> slashed2, k2 |-> k22, stuck |-> stuck2,
        ent |-> EntNext(gh, pre, rec, post), taint |-> TaintNext(gh, pre, rec, post), nacc |-> NaccNext(gh, pre, rec, post),
-       prevEnd |-> IF rec.ev = "EndBlock" THEN pre.now ELSE gh.prevEnd]
+       prevEnd |-> IF rec.ev = "EndBlock" THEN pre.now ELSE gh.prevEnd,
+       \* lock-step (C18): once the re-imported sibling has diverged through a merged redelegation record (K4) it stays diverged
+       diverged |-> IF rec.ev = "ForkImport" THEN ""
+                    ELSE IF Len(rec.mirror) = 1 /\ MergedAny(gh.red) /\ ObsView(NormState(rec.mirror[1].post)) # ObsView(post) THEN "K4"
+                    ELSE gh.diverged]
 
 -----------------------------------------------------------------------------
 (* C02 / C07: unbondings *)
@@ -539,7 +583,7 @@ C09_Step(pre, rec, post, gh) ==
   ELSE
     LET L == pre.params.last  I == pre.params.interval
         due == L # -1 /\ I > 0 /\ pre.now > L + I
-        n == IF due THEN (pre.now - L) \div I ELSE 0
+        n == IF L # -1 /\ I > 0 /\ pre.now >= L + I THEN (pre.now - L) \div I ELSE 0
         \* assets as end-of-block sees them (after InitAssets, which does not touch totals)
         charged == {a \in DOMAIN pre.assets \cap DOMAIN post.assets : post.assets[a].total # pre.assets[a].total}
         feeDelta(a) == BSub(Get(post.bank.fee, a), Get(pre.bank.fee, a))
@@ -548,16 +592,17 @@ C09_Step(pre, rec, post, gh) ==
         exact(a) == RMul(RInt(pre.assets[a].total), IF n <= 64 THEN RPow(Rat(BSub(ONE, pre.assets[a].take), ONE), n) ELSE Rat(DPow(BSub(ONE, pre.assets[a].take), n), ONE))
         errT(a) == BAdd("1", CeilDiv(BMul(pre.assets[a].total, slack), ONE))
     IN  UNION {LET x == pre.assets[a] IN
-                 Check("C09", due, "asset " \o a \o " was charged although no whole claim interval has elapsed since the take-rate clock")
+                 \* (at now = clock + interval exactly one whole interval has elapsed: the code waits one more block, charging is not wrong)
+                 Check("C09", L # -1 /\ I > 0 /\ pre.now >= L + I, "asset " \o a \o " was charged although no whole claim interval has elapsed since the take-rate clock")
                  \cup Check("C09", IsPos(x.take) /\ Started(x, pre.now), "asset " \o a \o " was charged at rate zero or before its reward start time")
                  \cup Check("C09", IsPos(post.assets[a].total), "take rate drove the total of " \o a \o " to zero")
-                 \cup (IF due THEN Check("C09", Within(RInt(post.assets[a].total), exact(a), errT(a)) /\ BLe(post.assets[a].total, pre.assets[a].total),
+                 \cup (IF n > 0 THEN Check("C09", Within(RInt(post.assets[a].total), exact(a), errT(a)) /\ BLe(post.assets[a].total, pre.assets[a].total),
                                          "asset " \o a \o ": total went from " \o x.total \o " to " \o post.assets[a].total \o ", not floor(T*(1-r)^n) for n = " \o ToString(n)) ELSE {})
                : a \in charged}
         \cup UNION {Check("C09", feeDelta(a) = (IF a \in charged THEN BSub(pre.assets[a].total, post.assets[a].total) ELSE "0"),
                           "end-of-block moved " \o feeDelta(a) \o " " \o a \o " to the fee collector but the staked total fell by " \o
                           (IF a \in charged THEN BSub(pre.assets[a].total, post.assets[a].total) ELSE "0")) : a \in (DOMAIN pre.assets \cup DOMAIN pre.bank.fee \cup DOMAIN post.bank.fee) \ {BondDenom}}
-        \cup (IF charged # {} /\ due
+        \cup (IF charged # {} /\ n > 0
               THEN Check("C09", post.params.last = L + n * I /\ post.params.last <= pre.now,
                          "take-rate clock moved from " \o ToString(L) \o " to " \o ToString(post.params.last) \o ", not by n = " \o ToString(n) \o " intervals of " \o ToString(I))
               ELSE Check("C09", post.params.last \in {L, pre.now}, "take-rate clock moved although nothing was charged"))
@@ -671,8 +716,6 @@ C15_Probes(s, rec, gh) ==
 -----------------------------------------------------------------------------
 (* C16 governance gate *)
 GovEvents == {"GovCreate", "GovUpdate", "GovDelete", "GovParams"}
-StoreView(s) == [params |-> s.params, assets |-> s.assets, vals |-> s.vals, dels |-> s.dels, unbQ |-> s.unbQ, unbIdx |-> s.unbIdx,
-                 redRec |-> s.redRec, redIdx |-> s.redIdx, redQ |-> s.redQ, flag |-> s.flag, snaps |-> s.snaps]
 C16_Step(pre, rec, post) ==
   LET e == rec.args IN
   IF rec.ev \notin GovEvents THEN {}
@@ -715,9 +758,10 @@ C13_Step(pre, rec, post, gh) ==
                      ws == {w(a) : a \in el}
                  IN  IF ws = {} THEN RInt("1") ELSE CHOOSE x \in ws : \A y \in ws : RLe(x, y)
       nac(k) == BFromInt(2 + (IF k \in DOMAIN gh.nacc THEN gh.nacc[k] ELSE 0))
-      res == BSum(cl, LAMBDA k : BAdd("1", BAdd(CeilDiv(BMul(BMul(IF BIsNum(pre.bals[k]) THEN pre.bals[k] ELSE "0", nac(k)), "2"), ONE),
+      res == BAdd(BQuo(RCeil(RSumSet(rds, LAMBDA rd : RSumSet(cl, LAMBDA k : scaled(k, rd)))), "1000000000"),     \* one part in 10^9 (ill-conditioned splits)
+             BSum(cl, LAMBDA k : BAdd("1", BAdd(CeilDiv(BMul(BMul(IF BIsNum(pre.bals[k]) THEN pre.bals[k] ELSE "0", nac(k)), "2"), ONE),
                                                IF IsZero(minW(k)[1]) THEN "0"
-                                               ELSE RCeil(RMul(RMul(RSumSet(rds, LAMBDA rd : scaled(k, rd)), RInt(BMul("8", nac(k)))), <<minW(k)[2], BMul(minW(k)[1], ONE)>>)))))
+                                               ELSE RCeil(RMul(RMul(RSumSet(rds, LAMBDA rd : scaled(k, rd)), RInt(BMul("8", nac(k)))), <<minW(k)[2], BMul(minW(k)[1], ONE)>>))))))
       grown == {k \in DOMAIN post.dels : k[3] \in DOMAIN post.assets /\ Started(post.assets[k[3]], post.now)
                                           /\ (k \notin DOMAIN pre.dels \/ BLt(pre.dels[k].shares, post.dels[k].shares))}
   IN  UNION {Check("C13", IsEmptyMap(Pending(pre, k[2])) \/ IsEmptyMap(Pending(post, k[2])) \/ ~HasMod(pre, k[2]),
@@ -741,9 +785,14 @@ DecayOverflows(pre, rec) ==
   IN  \E a \in DOMAIN mid.assets :
         LET x == mid.assets[a] IN
           DecayDue(x, mid.now) /\ LET pw == DPow(x.rate, (mid.now - x.lastChg) \div x.chgInt) IN Overflow(pw) \/ Overflow(DMul(x.weight, pw))
+\* K12: governance accepts any non-negative reward weight; with a weight of 10^9 and more the rebalancer mints so much stake
+\* that the validator's consensus power no longer fits x/staking's int64 and the end blocker panics
+HugeWeight(s) == \E a \in DOMAIN s.assets : BLe("1000000000000000000000000000", s.assets[a].weight)
 C17_Step(pre, rec, post) ==
   IF rec.ev = "EndBlock"
-  THEN CheckK("C17", rec.res.ok /\ ~rec.res.panic, IF rec.res.errc = "overflow" /\ DecayOverflows(pre, rec) THEN "K10" ELSE "",
+  THEN CheckK("C17", rec.res.ok /\ ~rec.res.panic,
+              IF rec.res.errc = "overflow" /\ DecayOverflows(pre, rec) THEN "K10"
+              ELSE IF rec.res.errc = "bound" /\ HugeWeight(pre) THEN "K12" ELSE "",
               "end-of-block failed: " \o rec.res.err)
   ELSE {}
 
@@ -773,7 +822,7 @@ C10_Step(pre, rec, post) ==
 NetSupply(s) == BSub(DecFromInt(s.bank.supplyBond), BSum({v \in DOMAIN s.env.vals : HasMod(s, v)}, LAMBDA v : ModTok(s, v)))   \* Dec
 AllianceEvents == {"Delegate", "Undelegate", "Redelegate", "Claim", "EndBlock", "SlashHook", "GovCreate", "GovUpdate", "GovDelete", "GovParams", "ExportImport"}
 C11_Step(pre, rec, post, gh, gh2) ==
-  (IF rec.ev \in AllianceEvents
+  (IF rec.ev \in AllianceEvents /\ (rec.ev # "EndBlock" \/ rec.res.ok)
    THEN LET touched == Cardinality({v \in DOMAIN pre.env.vals : EnvVal(pre, v).modShares # EnvVal(post, v).modShares})
             \* K9: stray staking coins left in the module account by the previous block are burned by this end-of-block
             burnt == IF rec.ev = "EndBlock" THEN DecFromInt(Get(gh.stuck, BondDenom)) ELSE "0"
@@ -784,7 +833,7 @@ C11_Step(pre, rec, post, gh, gh2) ==
    ELSE {})
   \* exact integer accounting: what the module mints it delegates, what it unbonds it burns - the staking-denom supply moves by
   \* exactly as much as the validators' tokens do (stray coins burned by end-of-block aside, K9)
-  \cup (IF rec.ev \in AllianceEvents /\ rec.ev # "SlashHook"
+  \cup (IF rec.ev \in AllianceEvents /\ rec.ev # "SlashHook" /\ (rec.ev # "EndBlock" \/ rec.res.ok)
         THEN LET dTok == BSum(DOMAIN pre.env.vals \cap DOMAIN post.env.vals, LAMBDA v : BSub(EnvVal(post, v).tokens, EnvVal(pre, v).tokens))
                  dSup == BSub(post.bank.supplyBond, pre.bank.supplyBond)
                  stray == IF rec.ev = "EndBlock" THEN Get(pre.bank.custody, BondDenom) ELSE "0"
@@ -841,6 +890,7 @@ C20_Probes(s, rec, gh) ==
                                   "contract binding reports delegation amount " \o p.val \o ", the gRPC query another value")
       [] p.kind = "exit" -> CheckK("C20", p.ok, ProbeKF(s, rec, gh, p), "the reported balance " \o p.x \o " of " \o p.d \o " on " \o p.v \o "/" \o p.a \o " cannot be undelegated: " \o p.err)
       [] p.kind = "undelPlus" -> Check("C20", ~p.ok, "more than the reported balance (" \o p.x \o ") of " \o p.d \o " on " \o p.v \o "/" \o p.a \o " can be undelegated")
+                                 \cup Check("C04", ~p.ok, "a position can be undelegated for more (" \o p.x \o ") than its reported value: " \o p.d \o " on " \o p.v \o "/" \o p.a)
       [] p.kind = "bindAlliance" -> Check("C20", p.ok /\ p.vals.weight = p.vals.g_weight /\ p.vals.take = p.vals.g_take /\ p.vals.total = p.vals.g_total
                                                  /\ p.vals.vshares = p.vals.g_vshares /\ p.vals.rate = p.vals.g_rate /\ p.vals.wmin = p.vals.g_wmin /\ p.vals.wmax = p.vals.g_wmax
                                                  /\ p.vals.init = p.vals.g_init,
@@ -857,9 +907,6 @@ C20_Probes(s, rec, gh) ==
 
 -----------------------------------------------------------------------------
 (* C18 genesis round trip, evaluated on an ExportImport step: pre is the original state *)
-\* the time queue is only used to find the records to delete at maturity: multiplicity and balances of its entries are unobservable
-QueueView(s) == [t \in DOMAIN s.redQ |-> {<<s.redQ[t][i].d, s.redQ[t][i].src, s.redQ[t][i].dst, s.redQ[t][i].a>> : i \in DOMAIN s.redQ[t]}]
-ObsView(s) == [StoreView(s) EXCEPT !.redQ = QueueView(s)]
 AnyMerged(gh) == \E i \in DOMAIN gh.red : MergedRecord(gh, <<gh.red[i].d, gh.red[i].dst, gh.red[i].a>>)
 C18_Step(pre, rec, post, gh) ==
   IF rec.ev # "ExportImport" THEN {}
@@ -872,6 +919,26 @@ C18_Step(pre, rec, post, gh) ==
                           "after export and re-import the module's " \o f \o " differ from the original") : f \in DOMAIN ObsView(pre) \ {"flag"}}
        \* a rebalance that is pending must still be pending; an additional one is a no-op at a fix-point
        \cup Check("C18", pre.flag => post.flag, "a pending rebalance is lost by export and re-import")
+
+\* lock-step: every event after a ForkImport is executed on the original state (the trace) and on the sibling branch whose
+\* module store was exported, wiped and re-imported (rec.mirror): same result, same module state, same balances
+C18_Mirror(pre, rec, post, gh) ==
+  (IF rec.ev = "ForkImport"
+   THEN Check("C18", rec.res.ok, "export/import failed: " \o rec.res.err)
+        \cup Check("C18", rec.res.ok => rec.res.same, "a second export (after re-import) is not identical to the first")
+   ELSE {})
+  \cup
+  (IF Len(rec.mirror) # 1 THEN {}
+   ELSE LET m == rec.mirror[1]
+            mp == NormState(m.post)
+            kf == IF AnyMerged(gh) \/ gh.diverged = "K4" THEN "K4" ELSE ""
+        IN  CheckK("C18", m.res.ok = rec.res.ok /\ m.res.errc = rec.res.errc, kf,
+                   rec.ev \o " on the re-imported module: " \o (IF m.res.ok THEN "succeeds" ELSE "fails (" \o m.res.err \o ")") \o
+                   ", on the original: " \o (IF rec.res.ok THEN "succeeds" ELSE "fails (" \o rec.res.err \o ")"))
+            \cup UNION {CheckK("C18", ObsView(mp)[f] = ObsView(post)[f], kf,
+                               "after " \o rec.ev \o " the re-imported module's " \o f \o " differ from the original's") : f \in DOMAIN ObsView(post) \ {"flag"}}
+            \cup CheckK("C18", mp.bank.custody = post.bank.custody /\ mp.bank.rewards = post.bank.rewards /\ mp.bank.fee = post.bank.fee /\ mp.bank.users = post.bank.users, kf,
+                        "after " \o rec.ev \o " balances (custody, rewards pool, fee collector, users) differ between the re-imported module and the original"))
 
 -----------------------------------------------------------------------------
 (* C19 determinism: the harness executed the step detn times on sibling branches of one state (plus once for real) and
@@ -893,7 +960,7 @@ Judge(pre, rec, post, gh, gh2) ==
   \cup C09_Step(pre, rec, post, gh) \cup C14_Step(pre, rec, post) \cup C14_Settle(pre, rec, post)
   \cup C15_Step(pre, rec, post, gh) \cup C16_Step(pre, rec, post) \cup C17_Step(pre, rec, post)
   \cup C10_Step(pre, rec, post) \cup C11_Step(pre, rec, post, gh, gh2) \cup C18_Step(pre, rec, post, gh)
-  \cup C13_Step(pre, rec, post, gh) \cup C19_Step(pre, rec, post)
+  \cup C13_Step(pre, rec, post, gh) \cup C19_Step(pre, rec, post) \cup C18_Mirror(pre, rec, post, gh)
 
 \* coverage tags: which property antecedents were exercised non-trivially at this step
 Covers(pre, rec, post, gh, gh2) ==
@@ -911,7 +978,8 @@ Covers(pre, rec, post, gh, gh2) ==
   \cup (IF Claimers(pre, rec) # {} /\ Claimers(pre, rec) \cap gh.taint = {}
            /\ (\E k \in Claimers(pre, rec) : k \in DOMAIN EntMid(gh, pre, rec, post) /\ \E rd \in DOMAIN EntMid(gh, pre, rec, post)[k] : IsPos(EntMid(gh, pre, rec, post)[k][rd][1]))
         THEN {"claim-with-entitlement"} ELSE {})
-  \cup (IF rec.ev = "ExportImport" THEN {"export-import"} ELSE {})
+  \cup (IF rec.ev \in {"ExportImport", "ForkImport"} THEN {"export-import"} ELSE {})
+  \cup (IF Len(rec.mirror) = 1 THEN {"export-import"} ELSE {})
   \cup (IF \E p \in ProbeSet(rec) : p.kind \in {"delegate", "claim", "exit"} THEN {"probe-liveness"} ELSE {})
   \cup (IF \E p \in ProbeSet(rec) : p.kind = "claimAll" THEN {"probe-claimall"} ELSE {})
   \cup (IF \E p \in ProbeSet(rec) : p.kind = "qUnb" THEN {"probe-queries"} ELSE {})
